@@ -13,6 +13,7 @@ use lightning_signer::bitcoin::bip32::{ChildNumber, DerivationPath};
 use lightning_signer::bitcoin::secp256k1::PublicKey;
 use lightning_signer::bitcoin::ScriptBuf;
 use lightning_signer::channel::{ChannelSetup, CommitmentType};
+use lightning_signer::lightning::sign::ChannelSigner;
 use lightning_signer::lightning::types::payment::PaymentHash;
 use lightning_signer::node::{Node, NodeServices};
 use lightning_signer::persist::Persist;
@@ -26,7 +27,7 @@ use lightning_signer::signer::StartingTimeFactory;
 use lightning_signer::tx::tx::{CommitmentInfo2, HTLCInfo2};
 use lightning_signer::util::clock::Clock;
 use lightning_signer::util::test_utils::key::{make_test_bitcoin_pubkey, make_test_pubkey};
-use lightning_signer::util::test_utils::{make_genesis_starting_time_factory, make_test_channel_setup};
+use lightning_signer::util::test_utils::{build_tx_scripts, make_genesis_starting_time_factory, make_test_channel_setup};
 use lightning_signer::wallet::Wallet;
 use serde_json::{json, Value};
 use std::panic::{catch_unwind, AssertUnwindSafe};
@@ -403,8 +404,45 @@ fn run_commit(c: &mut Case) -> u64 {
 
 // ------------------------------------------------------------------ reference predicate (u128)
 
-fn strict(p: &Pol) -> bool {
-    p.rules.iter().all(|(_, _, w)| !*w)
+/// reference reading of a filter: the first rule that matches (exactly, or as a prefix when the
+/// rule says so) decides; no rule = not downgraded
+fn ref_warned(rules: &[(String, bool, bool)], tag: &str) -> bool {
+    for (t, is_prefix, warn) in rules {
+        let hit = if *is_prefix { tag.len() >= t.len() && &tag[..t.len()] == t.as_str() } else { tag == t.as_str() };
+        if hit {
+            return *warn;
+        }
+    }
+    false
+}
+
+/// the policy tag guarding each conjunct ("" = cannot be downgraded)
+fn tag_of(msg: &str) -> &'static str {
+    match msg {
+        "outputs exceed the channel value" => "",
+        "fee below the BOLT-3 fee at min_feerate_per_kw" | "fee at or above the BOLT-3 fee at max_feerate_per_kw + 1" =>
+            "policy-commitment-fee-range",
+        "main output below the dust limit" | "offered HTLC below the trim limit" | "received HTLC below the trim limit" =>
+            "policy-commitment-outputs-trimmed",
+        "too many HTLCs" => "policy-commitment-htlc-count-limit",
+        "in-flight value above max_htlc_value_sat" => "policy-commitment-htlc-inflight-limit",
+        "HTLC expiry at or above MAX_CLTV_EXPIRY" | "HTLC expiry outside [height + min_delay, height + max_delay]" =>
+            "policy-commitment-htlc-cltv-range",
+        "initial commitment with HTLCs" => "policy-commitment-first-no-htlcs",
+        "initial commitment gives the fundee more than the pushed value" => "policy-commitment-initial-funding-value",
+        "commitment beyond the initial one while funding unconfirmed or closed" => "policy-commitment-spends-active-utxo",
+        "unsafe commitment type accepted" => "policy-channel-safe-type",
+        "counterparty-selected contest delay outside policy accepted" => "policy-channel-contest-delay-range-holder",
+        "holder-selected contest delay outside policy accepted" => "policy-channel-contest-delay-range-counterparty",
+        "foreign shutdown script accepted" => "policy-mutual-destination-allowlisted",
+        "channel above max_channel_size_sat accepted" => "policy-funding-max",
+        _ => "",
+    }
+}
+
+/// the violated conjuncts whose tag the filter does not downgrade
+fn not_downgraded(rules: &[(String, bool, bool)], v: Vec<&'static str>) -> Vec<&'static str> {
+    v.into_iter().filter(|m| tag_of(m).is_empty() || !ref_warned(rules, tag_of(m))).collect()
 }
 
 fn htlc_limit(s: &Setup, i: &Info, w: u128) -> u128 {
@@ -595,7 +633,7 @@ fn base_case(rng: &mut Rng) -> Case {
         funding_depth: *rng.pick(&[1u32, 1, 6, U32MAX]),
         closing_depth: 0,
     };
-    let n = *rng.pick(&[0u64, 1, 1, 2, 7, 1 << 40]);
+    let n = *rng.pick(&[0u64, 0, 0, 1, 1, 2, 7, 1 << 40]);
     let feerate = *rng.pick(&[0u32, 253, 1000, 25_000]);
     let (no, nr) = if n == 0 { (0, 0) } else { (rng.below(3) as usize, rng.below(3) as usize) };
     let setup = Setup {
@@ -769,6 +807,9 @@ fn mutate(c: &mut Case, f: u64, rng: &mut Rng) {
             }
         }
         9 => {
+            if c.n == 0 && rng.chance(3, 4) {
+                c.setup.is_outbound = true;
+            }
             let cpv = if c.info.cp_broadcaster { c.info.to_broadcaster } else { c.info.to_countersigner };
             let b = (cpv as u128) * 1000;
             c.setup.push_value_msat = match rng.below(6) {
@@ -1031,9 +1072,10 @@ fn commit(args: &Args) {
             }
         }
         let mut viol: Vec<&str> = vec![];
-        if obs == 0 && strict(&c.pol) {
+        if obs == 0 {
             monitored += 1;
             let (v, ood) = reference_violations(&c, release);
+            let v = not_downgraded(&c.pol.rules, v);
             if ood {
                 out_of_domain += 1;
             }
@@ -1051,7 +1093,7 @@ fn commit(args: &Args) {
     emit(
         "STATS",
         json!({"kind": "commit", "profile": profile_name(), "observed_distribution": dist,
-               "accepted_under_strict_filter_checked_by_monitor": monitored, "monitor_failures": monitor_failures,
+               "accepted_checked_by_monitor": monitored, "monitor_failures": monitor_failures,
                "accepted_outside_theorem_domain_release_height_wrap": out_of_domain,
                "base_cases": base_total, "base_cases_accepted": base_accepted,
                "field_pairs_covered": pairs_seen.len(), "field_pairs_total": npairs}),
@@ -1141,24 +1183,24 @@ fn setup_domain(args: &Args) {
         *dist.entry(format!("{}/{}", o1, o2)).or_insert(0) += 1;
         // the property itself
         let mut viol: Vec<&str> = vec![];
-        if strict(&pol) {
-            if o1 == 0 {
-                if !(s.ctype == 1 || s.ctype == 3) {
-                    viol.push("unsafe commitment type accepted");
-                }
-                for x in [s.holder_delay, s.cp_delay] {
-                    if x < mind || x > maxd {
-                        viol.push("contest delay outside policy accepted");
-                    }
-                }
-                if shutdown == 2 {
-                    viol.push("foreign shutdown script accepted");
-                }
+        if o1 == 0 {
+            if !(s.ctype == 1 || s.ctype == 3) {
+                viol.push("unsafe commitment type accepted");
             }
-            if o2 == 0 && s.channel_value_sat > maxsize {
-                viol.push("channel above max_channel_size_sat accepted");
+            if s.cp_delay < mind || s.cp_delay > maxd {
+                viol.push("counterparty-selected contest delay outside policy accepted");
+            }
+            if s.holder_delay < mind || s.holder_delay > maxd {
+                viol.push("holder-selected contest delay outside policy accepted");
+            }
+            if shutdown == 2 {
+                viol.push("foreign shutdown script accepted");
             }
         }
+        if o2 == 0 && s.channel_value_sat > maxsize {
+            viol.push("channel above max_channel_size_sat accepted");
+        }
+        let viol = not_downgraded(&pol.rules, viol);
         if !viol.is_empty() {
             monitor_failures += 1;
         }
@@ -1273,6 +1315,7 @@ fn chan_domain(args: &Args) {
             node.setup_channel(channel_id.clone(), None, setup.clone(), &DerivationPath::master())
         }));
         let setup_ok = matches!(sr, Ok(Ok(_)));
+        let phase1 = !(witness || control) && ctype == 1 && rng.chance(1, 2);
         let mut steps_json = vec![];
         let mut coq_terms = vec![];
         let mut viols: Vec<String> = vec![];
@@ -1301,26 +1344,66 @@ fn chan_domain(args: &Args) {
             while k < plan.len() {
                 let st = &plan[k];
                 let (n, info) = (st.n, st.info.clone());
-                let r = catch_unwind(AssertUnwindSafe(|| {
-                    node.with_channel(&channel_id, |chan| {
-                        chan.sign_counterparty_commitment_tx_phase2(
-                            &point,
-                            n,
-                            info.feerate,
-                            info.to_countersigner,
-                            info.to_broadcaster,
-                            vec![],
-                            vec![],
-                        )
-                    })
-                }));
+                let r: std::thread::Result<Result<(), lightning_signer::util::status::Status>> =
+                    catch_unwind(AssertUnwindSafe(|| {
+                        node.with_channel(&channel_id, |chan| {
+                            if phase1 {
+                                // phase 1: the caller supplies the transaction and the witness scripts
+                                let parameters = chan.make_channel_parameters();
+                                let directed = parameters.as_counterparty_broadcastable();
+                                let keys = chan.make_counterparty_tx_keys(&point);
+                                let ctx = chan.make_counterparty_commitment_tx(
+                                    &point,
+                                    n,
+                                    info.feerate,
+                                    info.to_countersigner,
+                                    info.to_broadcaster,
+                                    vec![],
+                                );
+                                let scripts = build_tx_scripts(
+                                    &keys,
+                                    info.to_broadcaster,
+                                    info.to_countersigner,
+                                    &mut vec![],
+                                    &directed,
+                                    &chan.keys.pubkeys().funding_pubkey,
+                                    &chan.setup.counterparty_points.funding_pubkey,
+                                )
+                                .expect("scripts");
+                                let witscripts: Vec<Vec<u8>> = scripts.iter().map(|s| s.as_bytes().to_vec()).collect();
+                                let trusted = ctx.trust();
+                                let tx = trusted.built_transaction();
+                                chan.sign_counterparty_commitment_tx(
+                                    &tx.transaction,
+                                    &witscripts,
+                                    &point,
+                                    n,
+                                    info.feerate,
+                                    vec![],
+                                    vec![],
+                                )
+                                .map(|_| ())
+                            } else {
+                                chan.sign_counterparty_commitment_tx_phase2(
+                                    &point,
+                                    n,
+                                    info.feerate,
+                                    info.to_countersigner,
+                                    info.to_broadcaster,
+                                    vec![],
+                                    vec![],
+                                )
+                                .map(|_| ())
+                            }
+                        })
+                    }));
                 let obs: u64 = match &r {
                     Err(_) => 1,
                     Ok(Ok(_)) => 0,
                     Ok(Err(_)) => 2,
                 };
                 let status = match &r {
-                    Ok(Err(e)) => format!("{:?}", e.code()),
+                    Ok(Err(e)) => format!("{:?}: {}", e.code(), e.message()),
                     _ => String::new(),
                 };
                 *dist.entry(format!("{}:{}", st.what, obs)).or_insert(0) += 1;
@@ -1336,18 +1419,17 @@ fn chan_domain(args: &Args) {
                 if obs == 0 {
                     signed += 1;
                     let mut v: Vec<String> = vec![];
-                    let funding_max_strict = !pol.rules.iter().any(|(t, _, w)| *w && t == "policy-funding-max");
-                    if funding_max_strict && cv > maxsize {
+                    if !ref_warned(&pol.rules, "policy-funding-max") && cv > maxsize {
                         v.push("counterparty commitment signed for a channel above max_channel_size_sat".to_string());
                     }
                     let (rv, _) = reference_violations(&case, release);
-                    v.extend(rv.iter().map(|x| x.to_string()));
+                    v.extend(not_downgraded(&pol.rules, rv).iter().map(|x| x.to_string()));
                     if !v.is_empty() {
                         monitor_failures += 1;
                         viols.extend(v.iter().map(|x| format!("{} commitment {}: {}", st.what, n, x)));
                     }
                 }
-                steps_json.push(json!({"step": st.what, "commit_num": n, "feerate_per_kw": info.feerate,
+                steps_json.push(json!({"step": st.what, "api": if phase1 { "sign_counterparty_commitment_tx" } else { "sign_counterparty_commitment_tx_phase2" }, "commit_num": n, "feerate_per_kw": info.feerate,
                     "to_holder_value_sat": info.to_countersigner, "to_counterparty_value_sat": info.to_broadcaster,
                     "implied_fee_sat": (cv as u128).saturating_sub(info.to_countersigner as u128 + info.to_broadcaster as u128).to_string(),
                     "observed": (["signed", "panic", "refused"][obs as usize]), "status_code": status}));
